@@ -62,7 +62,9 @@ SetChoices == {
   <<"const", O(<< <<"a", JStr("x")>> >>)>>, <<"default", O(<< <<"a", JStr("x")>> >>)>>,
   <<"propertyNames", Mk("String", [maxLength |-> 1])>>,
   <<"items", IntegerE>>, <<"minItems", 2>>, <<"minimum", JInt(7)>>,
-  <<"additionalItemsB", FALSE>>, <<"additionalItems", IntegerE>> }
+  <<"additionalItemsB", FALSE>>, <<"additionalItems", IntegerE>>,
+  (* element.properties = {...}: the whole table replaced through the attribute's setter *)
+  <<"properties", << Prop("z", "z", TRUE, StringE), Prop("class_", "class", FALSE, IntegerE) >> >> }
 
 (* a parent that sets every class keyword, for the subclass (merge) events *)
 P0 == MkObj("P", [default |-> O(<< <<"a", JStr("x")>> >>), enum |-> << O(<< <<"a", JStr("x")>> >>), JNull >>,
@@ -102,8 +104,9 @@ NoOutcome == [kind |-> "none", out |-> NP]
 
 InstanceOnly == {"items", "minItems", "minimum"}   \* not class keywords: only meaningful on E
 TupleOnly == {"additionalItemsB", "additionalItems"}   \* only meaningful next to tuple items: N
+TableOnly == {"properties"}                            \* whole-table assignment: the element instances E, N
 SetKeyword == \E x \in PropTargets, c \in SetChoices :
-  (c[1] \in InstanceOnly => x = "E") /\ (c[1] \in TupleOnly => x = "N") /\
+  (c[1] \in InstanceOnly => x = "E") /\ (c[1] \in TupleOnly => x = "N") /\ (c[1] \in TableOnly => x \in {"E", "N"}) /\
   Step(Op("set", x, <<c[1], c[2]>>), [heap EXCEPT ![x] = SetKw(@, c[1], c[2])], NoOutcome)
 ClearKeyword == \E x \in Targets : \E kw \in DOMAIN heap[x].kw \ {"properties"} :
   Step(Op("clear", x, <<kw, 0>>), [heap EXCEPT ![x] = DelKw(@, kw)], NoOutcome)
